@@ -71,7 +71,7 @@ def z_jobs(rng, tier):
         for a in BOUNDARY:
             for b in BOUNDARY:
                 jobs.append({"fam": "z", "op": op, "via": "op", "a": str(a), "b": str(b)})
-    nr = 1000 if tier == "quick" else 20000
+    nr = 1000 if tier == "quick" else 10000
     for op in binops:
         for _ in range(nr):
             via = rng.choice(["op", "asg"]) if op in ("add", "sub", "mul", "divrem") else "op"
@@ -82,7 +82,7 @@ def z_jobs(rng, tier):
                     b = "0"
             jobs.append({"fam": "z", "op": op, "via": via, "a": a, "b": b})
     # unary / conversions
-    nu = 300 if tier == "quick" else 6000
+    nu = 300 if tier == "quick" else 4000
     pool = [str(v) for v in BOUNDARY] + [rnd_num(rng) for _ in range(nu)]
     for a in pool:
         jobs.append({"fam": "z", "op": "neg", "via": "op", "a": a})
@@ -145,7 +145,7 @@ def q_jobs(rng, tier):
             if d < 0 and ctor == "str":
                 ctor = "div"
             jobs.append({"fam": "q", "op": "q_round", "ctor": ctor, "via": ctor, "n": str(n), "d": str(d)})
-    nr = 1500 if tier == "quick" else 20000
+    nr = 1500 if tier == "quick" else 12000
 
     def den(ctor, maxdig=20):
         d = rnd_num(rng, maxdig)
@@ -192,7 +192,7 @@ def s_jobs(rng, tier):
                 if op == "s_div" and b == 0:
                     continue                  # division by zero is outside the contract (SIGFPE)
                 jobs.append({"fam": "s", "op": op, "via": "op", "a": str(a), "b": str(b)})
-    nr = 700 if tier == "quick" else 12000
+    nr = 700 if tier == "quick" else 8000
     for op in ("s_add", "s_sub", "s_mul", "s_div", "s_cmp"):
         for _ in range(nr):
             a, b = rnd_i64(rng), rnd_i64(rng)
@@ -243,7 +243,7 @@ def neg_desc(e):
 
 def lin_jobs(rng, tier):
     jobs = []
-    n = 250 if tier == "quick" else 5000
+    n = 250 if tier == "quick" else 2500
     kinds = ["le", "lt", "eq", "ne"]
     for nt in ("z", "q"):
         for _ in range(n):
